@@ -33,12 +33,14 @@ Definition guard_C14 (t l r sep : list Z) (gap w : Z) : bool :=
   && negb (contains sep [SP]) && negb (contains sep [HYPHEN]).
 
 (* there are column widths lw, rw >= 2 with lw + gap + rw = W for which the output is the juxtaposition *)
-Definition check_C14 (t : list Z) (pos : Z) (l r : list Z) (gap w : Z) (sep : list Z) (ntl : bool) (out : list Z) : bool :=
+(* [hint] is a candidate left width tried first (it only speeds the search up) *)
+Definition check_C14 (hint : Z) (t : list Z) (pos : Z) (l r : list Z) (gap w : Z) (sep : list Z) (ntl : bool) (out : list Z) : bool :=
   match l, r with
   | [], [] => zlist_eqb out t
   | _, _ =>
       let W := Z.max w (gap + 4) in
-      existsb (fun k => let lw := 2 + Z.of_nat k in let rw := W - gap - lw in
+      ((2 <=? hint) && (2 <=? W - gap - hint) && inserted_ok t pos (two_col_block l r hint (W - gap - hint) gap sep ntl) out)
+      || existsb (fun k => let lw := 2 + Z.of_nat k in let rw := W - gap - lw in
                         (2 <=? rw) && inserted_ok t pos (two_col_block l r lw rw gap sep ntl) out)
               (seq 0 (Z.to_nat (W - gap - 3)))
   end.
